@@ -114,7 +114,7 @@ fn inv(op: &Op, _ctx: &dyn Context, data: &mut dyn CoordinateSet) -> usize {
         let coord = data.get_coord(i);
         let mut c = Coor4D::default();
         for j in 0..4_usize {
-            c[post[j]] = coord[j] * mult[post[j]];
+            c[post[j]] = coord[j] * mult[j];
         }
         data.set_coord(i, &c);
     }
@@ -258,7 +258,8 @@ fn coordinate_order_descriptor(desc: &str) -> Option<CoordinateOrderDescriptor> 
     for i in 0..4 {
         let d = indices[i];
         post[i] = (d.abs() - 1) as usize;
-        mult[i] = d.signum() as f64 * if i > 1 { 1.0 } else { torad };
+        // The angular unit belongs to the horizontal axes, wherever they are placed
+        mult[i] = d.signum() as f64 * if post[i] > 1 { 1.0 } else { torad };
     }
     let noop = mult == [1.0; 4] && post == [0_usize, 1, 2, 3];
 
@@ -272,8 +273,8 @@ fn combine_descriptors(
 ) -> CoordinateOrderDescriptor {
     let mut give = CoordinateOrderDescriptor::default();
     for i in 0..4 {
-        give.mult[i] = from.mult[i] / to.mult[i];
         give.post[i] = from.post.iter().position(|&p| p == to.post[i]).unwrap();
+        give.mult[i] = from.mult[give.post[i]] / to.mult[i];
     }
     give.noop = give.mult == [1.0; 4] && give.post == [0_usize, 1, 2, 3];
     give
